@@ -33,6 +33,10 @@ def cases(tier):
     for n in (66, 70):
         for S in (list(range(n)), list(range(0, n, 2)) + [n - 1] if n % 2 == 0 else list(range(0, n, 2))):
             yield {'n': n, 'r': [1] * (n + 1), 'S': sorted(set(S)), 'big': True}
+    # long ENTANGLED complex chains (bond rank 2 and 3), every qubit measured: the prefix probabilities fall to 2^-60, far below
+    # machine epsilon in absolute terms, while the conditional probabilities stay of order one
+    for n, rb in ((60, 2), (56, 3)) if tier == 'quick' else ((60, 2), (56, 3), (90, 2), (64, 4)):
+        yield {'n': n, 'r': [1] + [int(min(rb, 2 ** min(i, n - i, 10))) for i in range(1, n)] + [1], 'S': list(range(n)), 'bigent': True}
     # sample counts beyond 2^16 and 2^17 on entangled states (maximal ranks): every sample row is an environment answer
     for n, S in ((2, [0, 1]), (3, [0, 1, 2]), (3, [0, 2]), (4, [1, 3])):
         for ns in ((70001,) if tier == 'quick' else (70001, 140003)):
@@ -63,6 +67,8 @@ def run_case(case, seed):
     r = R(case)
     if case.get('big'):
         return run_big(case, r, qc, seed)
+    if case.get('bigent'):
+        return run_bigent(case, r, qc, seed)
     rng = rng_for({'n': case['n'], 'r': case['r']}, seed)
     n, rk, S = case['n'], case['r'], case['S']
     k = len(S)
@@ -150,6 +156,57 @@ def run_big(case, r, qc, seed):
     finally:
         np.random.rand = orig
     r.true('sampling:state-unchanged', unchanged(st, s0))
+    return r
+
+
+def run_bigent(case, r, qc, seed):
+    """chain oracle: P(x_i | x_<i) = |L A_i[x_i]|^2 / sum_x |L A_i[x]|^2 with the (renormalised) amplitude row vector L of the prefix;
+    valid because every core behind is right-orthonormal"""
+    n = case['n']; rk = case['r']
+    rng = rng_for({'n': n, 'bigent': 1, 'r': rk}, seed)
+    cs = [rng.standard_normal((rk[i], 2, 1, rk[i + 1])) + 1j * rng.standard_normal((rk[i], 2, 1, rk[i + 1])) for i in range(n)]
+    for i in range(n - 1, 0, -1):                   # right-orthonormalise by a QR sweep in plain NumPy
+        m_ = cs[i].reshape(rk[i], -1)
+        q_, r_ = np.linalg.qr(m_.conj().T)          # m_ = r_^H q_^H
+        cs[i] = q_.conj().T.reshape(rk[i], 2, 1, rk[i + 1])
+        cs[i - 1] = np.tensordot(cs[i - 1], r_.conj().T, axes=(3, 0))
+    cs[0] = cs[0] / np.linalg.norm(cs[0])
+    st = tt_from(cs)
+    s0 = snap(st)
+    r.nontrivial = True
+    pats = [np.zeros(n, int), np.ones(n, int), np.arange(n) % 2, (np.arange(n) // 3) % 2] + [rng.integers(0, 2, n) for _ in range(6)]
+    U = np.zeros((len(pats), n)); want = np.zeros((len(pats), n))
+    for a, bits in enumerate(pats):
+        L = np.ones((1, 1), dtype=complex)
+        for i in range(n):
+            amp = [L @ cs[i][:, x_, 0, :] for x_ in (0, 1)]
+            p = np.array([np.linalg.norm(v) ** 2 for v in amp])
+            p0 = p[0] / p.sum()
+            b = int(bits[i])
+            if p0 < 1e-4:
+                b = 1
+            elif p0 > 1 - 1e-4:
+                b = 0
+            U[a, i] = p0 + 1e-6 if b else p0 - 1e-6
+            want[a, i] = b
+            L = amp[b] / np.linalg.norm(amp[b])
+    ws, cnt = np.unique(want, return_counts=True, axis=0)
+    orig = np.random.rand
+    np.random.rand = lambda *shape: U.copy()
+    try:
+        with r.op('sampling:long-entangled-chain:call'):
+            smp, prob = qc.sampling(st, list(range(n)), U.shape[0])
+            smp = np.asarray(smp); prob = np.asarray(prob)
+            ok = smp.shape == ws.shape and np.array_equal(smp, ws) and np.allclose(prob, cnt / U.shape[0], rtol=0, atol=1e-15)
+            first = -1
+            if smp.shape == ws.shape and not ok:
+                dif = np.argwhere(smp != ws)
+                first = int(dif[:, 1].min()) if len(dif) else -1
+            r.true('sampling:long-entangled-chain:inverse-cdf', ok, '%d distinct outcomes returned, %d expected; first differing qubit %d of %d' % (smp.shape[0], ws.shape[0], first, n))
+    finally:
+        np.random.rand = orig
+    r.true('sampling:state-unchanged', unchanged(st, s0))
+    r.outcome = 'long-chain'
     return r
 
 
